@@ -394,10 +394,11 @@ def make_case(rng, host, depth, family, nsteps, name, budget=8, p_bad=0.0):
             progs.append(g2.cmd(1))
             follow[str(t)] = len(progs) - 1
     pol = {"kind": "random", "seed": rng.randrange(1 << 30), "max": nsteps,
-           "p_drop": rng.choice([0.0, 0.15, 0.3]) if host in ("direct", "stream", "core") else 0.0,
+           "p_drop": rng.choice([0.0, 0.15, 0.3]) if host in ("direct", "stream", "core", "tester") else 0.0,
            "p_late": rng.choice([0.0, 0.1, 0.3]),
            "p_abort": rng.choice([0.0, 0.0, 0.1]) if host != "stream" else 0.0,
-           "p_noop": 0.0 if direct else 0.15,
+           # (under AppTester the "noop" steps feed the returned events back through update)
+           "p_noop": 0.0 if direct else 0.3 if host == "tester" else 0.15,
            "p_run": 0.0 if direct else 0.1,
            "p_batch": rng.choice([0.0, 0.25, 0.5]) if host == "direct" else 0.0,
            "p_bad": p_bad if host.startswith("bridge") else 0.0,
